@@ -697,6 +697,8 @@ class MultiFieldMapper:
     @staticmethod
     def get_paramlist_from_schema(schema, definitions):
         items = list(schema.values())[0]
+        if isinstance(items, dict):
+            items = [items]
         params = {"fields": convert_to_field_code(items, definitions)}
         return list(params.items())
 
